@@ -123,6 +123,63 @@ fn predicate_race(mode: u8, n: u64, key: u64, race: u8, force: bool, out: &mut O
     Ok(())
 }
 
+/// Without concurrent writers retain / retain_force equal the standard retain: every entry is
+/// shown to the predicate exactly once and exactly the rejected ones are gone.
+fn sequential(mode: u8, n: u64, pred_kind: u8, force: bool, via_set: bool) -> Result<(), String> {
+    let keep = |k: u64| match pred_kind {
+        0 => false,
+        1 => true,
+        2 => k % 2 == 0,
+        3 => k % 3 != 0,
+        _ => k < n / 2,
+    };
+    let which = if via_set { "HashSet::retain" } else if force { "retain_force" } else { "retain" };
+    let mut shown: Vec<u64> = Vec::new();
+    let remaining: Vec<u64>;
+    let len;
+    if via_set {
+        let s: flurry::HashSet<u64, HB> = flurry::HashSet::with_capacity_and_hasher(64, HB::new(mode));
+        let g = s.guard();
+        for k in 0..n {
+            s.insert(k, &g);
+        }
+        s.retain(|k| { shown.push(*k); keep(*k) }, &g);
+        let mut r: Vec<u64> = s.iter(&g).copied().collect();
+        r.sort();
+        remaining = r;
+        len = s.len();
+    } else {
+        let m: UMap = HashMap::with_capacity_and_hasher(64, HB::new(mode));
+        let g = m.guard();
+        for k in 0..n {
+            m.insert(k, 100 + k, &g);
+        }
+        let p = |k: &u64, v: &u64| {
+            shown.push(*k);
+            *v == 100 + *k && keep(*k)
+        };
+        if force {
+            m.retain_force(p, &g)
+        } else {
+            m.pin().retain(p)
+        }
+        let mut r: Vec<u64> = m.iter(&g).map(|x| *x.0).collect();
+        r.sort();
+        remaining = r;
+        len = m.len();
+    }
+    shown.sort();
+    let all: Vec<u64> = (0..n).collect();
+    if shown != all {
+        return Err(format!("{which} on {n} keys (hasher {}): the predicate was shown {:?}, expected every key exactly once", mode_name(mode), shown));
+    }
+    let want: Vec<u64> = (0..n).filter(|k| keep(*k)).collect();
+    if remaining != want || len != want.len() {
+        return Err(format!("{which} on {n} keys (hasher {}), predicate {pred_kind}: {} entries remain ({:?}..), the standard retain leaves {}", mode_name(mode), remaining.len(), remaining.iter().take(6).collect::<Vec<_>>(), want.len()));
+    }
+    Ok(())
+}
+
 pub fn run(ctx: &Ctx) -> Outcome {
     let mut out = Outcome::new(
         "(i) predicate-side races: while retain/retain_force's predicate is looking at key k, a writer completes replace / remove / remove+reinsert of k, then the predicate returns false (list and tree bins, every key position); \
@@ -131,6 +188,23 @@ pub fn run(ctx: &Ctx) -> Outcome {
     );
     hook::install();
     install_panic_capture();
+    if ctx.shard == 0 {
+        for mode in [UNIFORM, CONSTANT, SAMEBIN, MIXED, SPLITTING] {
+            for n in [0u64, 1, 2, 7, 8, 9, 12, 20, 40] {
+                for pred in 0..5u8 {
+                    for variant in 0..3u8 {
+                        out.evaluations += 1;
+                        out.add("sequential_retain_cases", 1);
+                        out.distinct.insert(fnv(fnv(fnv(fnv(FNV_OFFSET ^ 0x5e9, mode as u64), n), pred as u64), variant as u64));
+                        if let Err(e) = guarded(|| sequential(mode, n, pred, variant == 1, variant == 2)).unwrap_or_else(|p| Err(p)) {
+                            out.violate("c13/sequential", e, Json::obj().with("check", Json::s("c13")).with("part", Json::s("sequential")).with("hasher", Json::s(mode_name(mode))).with("n", Json::u(n)).with("predicate", Json::u(pred)).with("variant", Json::u(variant)));
+                            return out;
+                        }
+                    }
+                }
+            }
+        }
+    }
     let mut idx = 0u64;
     'races: for &(mode, n) in &[(UNIFORM, 5u64), (CONSTANT, 6), (CONSTANT, 13), (SAMEBIN, 16), (SPLITTING, 20)] {
         for key in 0..n {
